@@ -384,6 +384,8 @@ def eq(a, b):
         if not is_z3(a) and not is_z3(b):
             # concrete replay compares floats "to 1e-9" (the symbolic side is exact, A1)
             return math.isclose(a, b, rel_tol=1e-9, abs_tol=1e-9)
+    if is_z3(a) and is_z3(b) and a.sort() != b.sort() and not (z3.is_arith(a) and z3.is_arith(b)):
+        return False          # an object (text, label) is never equal to a number: different kinds of value
     return a == b
 
 
